@@ -456,3 +456,66 @@ def check_C01(ctx):
             "outcome ok, exact length fperiod x F, finite, durations in the specification's set, voicing mask of the hooked log-F0 trajectory; "
             "I->S: bundled voice + perturbed copies, random utterances and in-envelope conditions validated against Trace_Laws!SynthLaw",
             {"voice_configurations": len(cfgs)})
+
+
+# --------------------------------------------------------------------------- C06 / C13 / C14 (vocoder-level spectra)
+
+def _spectral(ctx, mode, evname, keyfn):
+    q = ctx.quick()
+    mc(ctx, "SpectralGrid", S("mc", "MC_SpectralGrid.cfg"), S("mc", "MC_SpectralGrid.tla"), workers=8)
+    cases = gen(ctx, "Spectral_" + mode, S("gen", "Gen_Spectral_%s%s.cfg" % (mode, "" if q else "_thorough")),
+                S("gen", "Gen_Spectral_defs.tla"), workers=8, timeout=3000)
+    if q and len(cases) > 2500:
+        cases = cases[::max(1, len(cases) // 2500)]
+        ctx.exhaustive = False
+    cpath = ctx.path(mode + ".cases.jsonl")
+    tpath = ctx.path(mode + ".ndjson")
+    write_jsonl(cpath, cases)
+    p = run_jbv(["spectral-run", cpath, tpath], timeout=7200)
+    if p.returncode != 0:
+        log(p.stderr[-2000:])
+        raise ToolError("spectral-run failed")
+    trace_stage(ctx, mode, S("trace", "Trace_Spectral.cfg"), S("trace", "Trace_Spectral.tla"), tpath, reset_ev="__none__", keyfn=keyfn,
+                timeout=7200)
+    ctx.trusted += ["measurement: dft_logmag, energy; actuation: unwarp (all-pass phase inverse), acos; pulse located with an all-zero-spectrum twin run"]
+    return cases, read_jsonl(tpath)
+
+
+def check_C06(ctx):
+    cases, evs = _spectral(ctx, "mcep", "grid", lambda e, run: "grid:order%s:alpha%s" % (len(e.get("c64", [])), e.get("alpha")))
+    worst = 0
+    ctx.assumptions += ["33 frequencies with rational warped cosine k/16 (not every frequency); cepstra in 1/64 with sum_{m>=1}|c_m| <= 2 "
+                        "(precondition at all frequencies); tolerance 0.01 neper + 1.6e-3 fixed-point budget"]
+    return ("model_checking",
+            "TLC enumerates vector lengths x warping constants x rates x pseudo-random cepstra (uniform and speech-like profiles); "
+            "the public Vocoder's pulse response (third 20 Hz period) is measured at 33 exact-cosine frequencies and TLC evaluates "
+            "|ln|H| - sum_m c_m T_m(x)| <= tol with the reference computed in 2^-20 fixed point in the specification",
+            {"orders": sorted(set(len(c["c64"]) for c in cases))})
+
+
+def check_C14(ctx):
+    cases, evs = _spectral(ctx, "post", "post", lambda e, run: "post:%s" % ("energy" if abs(e.get("eratio_ppm", 10 ** 6) - 10 ** 6) > 10000 else "shape"))
+    r = [e["eratio_ppm"] for e in evs if e.get("ev") == "post"]
+    ctx.stage("energy ratio range (ppm)", lo=min(r), hi=max(r))
+    ctx.assumptions += ["as C06; beta in {1/8, 1/4, 1/2}; (1+beta) sum|c_m| <= 2; difference law relative to the grid point x = 0 so the c_0 shift cancels"]
+    return ("model_checking",
+            "as C06 with beta > 0 vs beta = 0: spectral difference law beta sum_{m>=2} c_m (T_m(x_k) - T_m(0)) (order 1 unchanged), "
+            "energy ratio of the two pulse responses within 1 %, vector length 2 => bit-equal, beta must influence the output",
+            {"energy_ratio_ppm_range": [min(r), max(r)]})
+
+
+def check_C13(ctx):
+    cases, evs = _spectral(ctx, "lsp", "lsp", lambda e, run: "lsp:%s" % ("diverges" if not (e.get("finite") and e.get("decay")) else "spectrum"))
+    pts = sum(sum(1 for rr in e["rel"] if rr <= 11513 and rr <= e["noise"] - 8000) for e in evs if e.get("ev") == "lsp")
+    tot = sum(sum(1 for rr in e["rel"] if rr <= 11513) for e in evs if e.get("ev") == "lsp")
+    ctx.stage("measurable grid points", checked=pts, within_100dB=tot)
+    if pts * 2 < tot:
+        raise ToolError("LSP law vacuous: too few measurable points")
+    ctx.assumptions += ["orders 2..8 only (exact |A|^2 must fit 32-bit integers), cosines in eighths, grid x in {-1,-3/4,..,1}; "
+                        "points closer than 8 nepers to the truncation floor of the one-period measurement are not judged",
+                        "the harness applies ln to the specification's exact integer N (|A|^2 = N / 4^(m+2)) - the single place where a reference passes through harness arithmetic"]
+    return ("model_checking",
+            "TLC enumerates LSP sets (cosines k/8, spacing precondition enforced in the specification), stages, warping, rates, linear/log gain and "
+            "computes |A|^2 exactly from a closed form that MC_SpectralGrid checks against polynomial multiplication; measured ln|H| must be "
+            "within 0.001 neper of ln K - (s/2) ln|A|^2 within 100 dB of the peak; response finite and decaying",
+            {"measurable_points": pts})
